@@ -344,6 +344,36 @@ class Projector:
         return 0
 
 
+VIEW_VALUE_FIELDS = ("into_inner", "as_ref", "deref", "borrow", "borrow2", "into", "clone", "iter", "iter_ref")
+CANON_EPS = ("canon", "canon_tf", "canon_disp", "canon_serde", "canon_fmt")
+
+
+def item_values(d, ep, inp, out, x):
+    """every concrete value of the declaration's inner type occurring in one observation."""
+    vals = []
+    k = out.get("k")
+    if k in ("skip", "noep"):
+        return vals
+    if ep in ("parse", "deser"):
+        inner = x["inner"]
+        if inner["ok"]:
+            vals.append(dec_value(d, inner["v"][0]))
+    elif ep in CANON_EPS or ep in ("views", "ser"):
+        vals.append(dec_value(d, x["v"]))
+    elif ep == "cmp":
+        vals.append(dec_value(d, x["a"]))
+        vals.append(dec_value(d, x["b"]))
+    elif ep != "default":
+        vals.append(dec_value(d, inp))
+    if k == "ok" and "v" in out:
+        vals.append(dec_value(d, out["v"]))
+    if ep == "views":
+        for f in VIEW_VALUE_FIELDS:
+            for v in out.get(f, []):
+                vals.append(dec_value(d, v))
+    return vals
+
+
 def collect_values(d, proj, batches):
     """feed every concrete value of the declaration and its observations to the projector."""
     if proj.p is None:
@@ -362,14 +392,8 @@ def collect_values(d, proj, batches):
         proj.add(v)
     for b in batches:
         for (inp, out, x) in b["b"]:
-            if b["ep"] == "parse":
-                inner = x["inner"]
-                if inner["ok"]:
-                    proj.add(dec_value(d, inner["v"][0]))
-            elif b["ep"] not in ("default",):
-                proj.add(dec_value(d, inp))
-            if out.get("k") == "ok":
-                proj.add(dec_value(d, out["v"]))
+            for v in item_values(d, b["ep"], inp, out, x):
+                proj.add(v)
 
 
 def model_out(d, proj, out):
@@ -378,15 +402,57 @@ def model_out(d, proj, out):
         return {"k": "ok", "v": [proj.model(dec_value(d, out["v"]))], "e": ""}
     if k == "err":
         return {"k": "err", "v": [], "e": out["e"]}
-    if k in ("panic", "perr", "derr", "aerr"):
+    if k in ("panic", "perr", "derr", "aerr", "sererr"):
         return {"k": k, "v": [], "e": ""}
     raise ToolError("unexpected outcome from driver: %r" % (out,))
 
 
 def model_env(x):
-    if not x or "env" not in x:
+    if not x or not x.get("env"):
         return []
     return x["env"]
+
+
+def model_item(d, proj, ep, inp, out, x):
+    """-> (model input, model outcome, env) or None when the observation carries nothing to judge."""
+    k = out.get("k")
+    if k == "noep":
+        raise ToolError("driver of %s has no entry point %s" % (d["id"], ep))
+    if k == "skip":
+        return None
+    env = model_env(x) if d["fam"] == "string" else None
+    if ep == "default":
+        return {"ok": True, "v": []}, model_out(d, proj, out), env
+    if ep in ("parse", "deser"):
+        inner = x["inner"]
+        mi = {"ok": inner["ok"], "v": [proj.model(dec_value(d, inner["v"][0]))] if inner["ok"] else []}
+        if d["fam"] == "string" and not inner["ok"]:
+            env = {"trim": [], "lower": [], "upper": []}
+        return mi, model_out(d, proj, out), env
+    if ep in CANON_EPS:
+        if not x.get("rt", True):
+            return None      # the environment itself does not round-trip this value: nothing is demanded
+        return {"ok": True, "v": [proj.model(dec_value(d, x["v"]))]}, model_out(d, proj, out), env
+    if ep == "views":
+        if k == "panic":
+            return {"ok": True, "v": [proj.model(dec_value(d, x["v"]))]}, {"panic": True}, None
+        o = {}
+        for f in VIEW_VALUE_FIELDS:
+            if f in out:
+                o[f] = [proj.model(dec_value(d, v)) for v in out[f]]
+        for f in ("disp", "ptr"):
+            if f in out:
+                o[f] = out[f]
+        return {"ok": True, "v": [proj.model(dec_value(d, x["v"]))]}, o, None
+    if ep == "cmp":
+        if k == "panic":
+            o = {"cmp": "panic", "ipcmp": "?"}
+        else:
+            o = {f: out[f] for f in ("eq", "ieq", "pcmp", "ipcmp", "cmp", "hash") if f in out}
+        return {"ok": True, "v": [proj.model(dec_value(d, x["a"])), proj.model(dec_value(d, x["b"]))]}, o, None
+    if ep == "ser":
+        return {"ok": True, "v": [proj.model(dec_value(d, x["v"]))]}, {"k": k, "same": bool(out.get("same")), "ref_ok": bool(out.get("ref_ok"))}, None
+    return {"ok": True, "v": [proj.model(dec_value(d, inp))]}, model_out(d, proj, out), env
 
 
 def project(decls_by_id, obs_path):
@@ -407,20 +473,19 @@ def project(decls_by_id, obs_path):
         for b in batches:
             ins, outs, envs, raw = [], [], [], []
             for (inp, out, x) in b["b"]:
-                if out.get("k") == "noep":
-                    raise ToolError("driver of %s has no entry point %s" % (did, b["ep"]))
-                if b["ep"] == "default":
-                    ins.append({"ok": True, "v": []})
-                elif b["ep"] == "parse":
-                    inner = x["inner"]
-                    ins.append({"ok": inner["ok"], "v": [proj.model(dec_value(d, inner["v"][0]))] if inner["ok"] else []})
-                else:
-                    ins.append({"ok": True, "v": [proj.model(dec_value(d, inp))]})
-                outs.append(model_out(d, proj, out))
-                if d["fam"] == "string":
-                    envs.append(model_env(x))
-                raw.append((inp, out))
-            events.append({"d": did, "ep": b["ep"], "ins": ins, "outs": outs, "envs": envs})
+                it = model_item(d, proj, b["ep"], inp, out, x)
+                if it is None:
+                    continue
+                mi, mo, env = it
+                ins.append(mi)
+                outs.append(mo)
+                if d["fam"] == "string" and b["ep"] not in ("views", "cmp", "ser"):
+                    envs.append(env if env is not None else [])
+                raw.append((inp, out, x))
+            if not ins:
+                continue
+            ep = "canon" if b["ep"] in CANON_EPS else b["ep"]
+            events.append({"d": did, "ep": ep, "ins": ins, "outs": outs, "envs": envs})
             index.append((did, b["ep"], raw))
     return table, events, index
 
